@@ -1329,7 +1329,7 @@ def _source_worker(args):
                             return
                     except Out:
                         pass
-                    record(f'C01.source.{variant}', (shape, f'={plan[shape][variant]} [{label}; operand values {[_plain(v) for v in vals_]}] '
+                    record(f'C01.source.{variant}', (shape, f'={plan[shape][variant]} [{label}; operand values {[_plain(v) for v in (vals_ or [])]}] '
                                                      f'-> {show(got)}, expected {show(exp)}; emitted: '
                                                      f'{_emitted(p.text, 0, vcol[variant] - 1, row - 1)}'))
             for shape in shapes_:
